@@ -23,7 +23,7 @@ FAMILY = {
     "C01": ["C07", "C02", "C03"], "C02": ["C03", "C06", "C07"], "C03": ["C02", "C07", "C01", "C06", "C10", "C04"], "C04": ["C20", "C03"],
     "C05": ["C15", "C20", "C09"], "C06": ["C02", "C07"], "C07": ["C01", "C13", "C12"], "C08": ["C14"], "C09": ["C05", "C15"],
     "C10": ["C15", "C11"], "C11": ["C17", "C10"], "C12": ["C07"], "C13": ["C07"], "C14": ["C08"], "C15": ["C05", "C10", "C17"],
-    "C16": [], "C17": ["C11", "C15"], "C18": [], "C19": ["C15"], "C20": ["C05", "C04"],
+    "C16": [], "C17": ["C11", "C15"], "C18": [], "C19": ["C15", "C09"], "C20": ["C05", "C04"],
 }
 
 
